@@ -69,6 +69,12 @@ def make_iter(cls, rng, mid=None):
          "dec_0": ("str", "0"), "dec_mid": ("str", str(mid)), "dec_max": ("str", "65535"),
          "dec_neg": ("str", "-1"), "dec_over": ("str", "65536"),
          "hex_mid": ("str", "0x%x" % mid), "hex_max": ("str", "0xffff"), "hex_max_upper": ("str", "0xFFFF"),
+         "dec_lead0": ("str", "0" * rng.randint(1, 3) + str(rng.choice((mid, mid, 7, 8, 9, 45, 0)))),
+         "dec_lead0_max": ("str", "0" * rng.randint(1, 3) + "65535"),
+         "hex_pad": ("str", rng.choice(("0x%04x", "0x%04X", "0x%06x")) % rng.choice((mid, 1, 0x2d))),
+         "bin": ("str", rng.choice(("0b", "0B")) + bin(rng.choice((0, 1, 5, mid)))[2:]),
+         "oct": ("str", rng.choice(("0o", "0O")) + oct(rng.choice((0, 7, 15, mid)))[2:]),
+         "hex_upper_prefix": ("str", "0X%x" % rng.choice((0, 31, mid, 65535))),
          "hex_over": ("str", "0x10000"),
          "float": ("float", rng.choice((0, 1, mid, 65535))), "bool": ("bool", rng.choice((0, 1))),
          "none": ("none", 0),
@@ -104,10 +110,20 @@ def iter_class_of(it):
     body = s[2:] if s.startswith("0x") else s
     if s.startswith("0x") and body and all(c in "0123456789abcdefABCDEF" for c in body):
         v = int(body, 16)
+        if len(body) > 1 and body[0] == "0":
+            return "hex_over" if v > 65535 else "hex_pad"
         return "hex_over" if v > 65535 else "hex_max" if v == 65535 else "hex_0" if v == 0 else "hex_mid"
     if s.isascii() and s.isdigit():
         v = int(s)
+        if len(s) > 1 and s[0] == "0":
+            return "dec_over" if v > 65535 else "dec_lead0_max" if v == 65535 else "dec_lead0"
         return "dec_over" if v > 65535 else {0: "dec_0", 65535: "dec_max"}.get(v, "dec_mid")
+    if s[:2] in ("0b", "0B"):
+        return "bin"
+    if s[:2] in ("0o", "0O"):
+        return "oct"
+    if s[:2] == "0X":
+        return "hex_upper_prefix"
     if s.startswith("-") and s[1:].isascii() and s[1:].isdigit():
         return "dec_neg"
     return "junk"
@@ -198,7 +214,8 @@ def run_behaviour(ctx, fx, b, tag):
             "tool": e["tool"], "cur": e["cur"], "k": e["k"]}
     good = e["mut"] == "none"
     recipe = {}
-    if good and m == 0 and e["hcls"] == "lower" and iin["form"] == "str" and rng.random() < 0.7:
+    if (good or e["mut"] == "iter") and m == 0 and e["hcls"] == "lower" and iin["form"] == "str" \
+            and rng.random() < 0.7:
         app = bytes(rng.getrandbits(8) for _ in range(rng.randrange(1, 700)))
         recipe["app"] = app.hex()
         hin = make_hash("lower", rng, raw=__import__("hashlib").sha256(app).digest())
@@ -283,7 +300,15 @@ def random_iter(rng):
     if r < 0.80:
         v = rng.choice((0, 15, 16, 65535, 65536, rng.randrange(65536), rng.randrange(65536), rng.randrange(2 ** 24)))
         return {"cls": "", "form": "str", "val": 0, "s": ("0x%x" if rng.random() < 0.6 else "0x%X") % v}
-    if r < 0.85:
+    if r < 0.83:
+        v = rng.choice((0, 7, 8, 9, 45, 65535, 65536, rng.randrange(65536)))
+        s = rng.choice(("0%d", "00%d", "%05d", "0x%04x", "0x%04X", "0x%06x")) % v
+        return {"cls": "", "form": "str", "val": 0, "s": s}
+    if r < 0.86:
+        v = rng.choice((0, 1, 5, 15, 31, rng.randrange(65536)))
+        s = rng.choice(("0b" + bin(v)[2:], "0B" + bin(v)[2:], "0o%o" % v, "0O%o" % v, "0X%x" % v, "0X%X" % v))
+        return {"cls": "", "form": "str", "val": 0, "s": s}
+    if r < 0.88:
         return {"cls": "", "form": "str", "val": 0, "s": "-%d" % rng.randrange(1, 70000)}
     if r < 0.90:
         return {"cls": "", "form": "float", "val": rng.choice((0, 1, 7, 65535)), "s": ""}
@@ -303,7 +328,7 @@ def run_random(ctx, fx, tag):
     iin = random_iter(rng)
     iin["cls"] = iter_class_of(iin)
     okiter = iin["cls"] in ("int_0", "int_1", "int_mid", "int_max", "dec_0", "dec_mid", "dec_max", "hex_0",
-                            "hex_mid", "hex_max")
+                            "hex_mid", "hex_max", "dec_lead0", "dec_lead0_max", "hex_pad")
     h = hin["raw"]
     n = iter_value(iin) if okiter else 1
     m = rng.choice((0, 1, 2, 3, 5, 10, rng.randrange(11)))
@@ -357,6 +382,15 @@ def run_random(ctx, fx, tag):
     return {"ev": evs, "desc": desc, "exc": info["exc"], "input": recipe}
 
 
+SWEEP_FORMS = {"dec": "%d", "hex": "0x%x", "dec0": "%06d", "hexpad": "0x%04X"}
+
+
+def sweep_iter(form, n):
+    if form == "int":
+        return {"cls": "", "form": "int", "val": n, "s": ""}
+    return {"cls": "", "form": "str", "val": 0, "s": SWEEP_FORMS[form] % n}
+
+
 def sweep_traces(ctx, fx, lo, hi, per_trace=64):
     """every iteration in lo..hi-1 once (form int / decimal text / 0x text by seed), random hashes:
     the build (text, wrapping, digest) and the authorize exchange of the built object with one
@@ -366,9 +400,8 @@ def sweep_traces(ctx, fx, lo, hi, per_trace=64):
     key = fx.keys[0]
     evs, descs = [], []
     for n in range(lo, hi):
-        form = rng.choice(("int", "dec", "hex"))
-        it = {"cls": "", "form": "int" if form == "int" else "str", "val": n if form == "int" else 0,
-              "s": "" if form == "int" else (str(n) if form == "dec" else "0x%x" % n)}
+        form = rng.choice(("int", "dec", "hex", "dec0", "hexpad"))
+        it = sweep_iter(form, n)
         hin = make_hash(rng.choice(("lower", "lower", "upper", "mixed")), rng)
         sig = make_sig(key, "valid", hin["raw"], n, rng)
         obj, ev = sa.build_api(hin, it, [sig])
@@ -555,20 +588,21 @@ def run(ctx):
         "device side by libsecp256k1 after low-S normalisation",
         "inside a class (hash bytes, mid iterations, keys, DER values) members are seeded samples; "
         "thorough tier covers every iteration 0..65535 once",
-        "inputs the property leaves open (blank-separated signature hex, '+5', ' 5', '1_0', non-canonical "
-        "DER integers) may be accepted or refused; if accepted everything else must be consistent",
+        "iteration strings: decimal digits (leading zeros included) and 0x + hex digits are the accepted "
+        "forms; 0b/0o/0X literals, junk, negatives, floats, bools are malformed; '+5', ' 5', '1_0', '-0', "
+        "blank-separated signature hex and non-canonical DER integers are left open (either answer; if "
+        "accepted everything else must be consistent)",
         "signapp's app hash is taken as sha256 of a single-area Intel HEX image (multi-area images are C19)",
     ]
     err = sa.selftest()
     if err:
         raise core.MachineryError(err)
-    # 1. design check, exhaustive (+ the negative and the known-window configurations, concurrently)
+    # 1. design check, exhaustive (+ the negative configuration, concurrently)
     import concurrent.futures as cf
-    with cf.ThreadPoolExecutor(max_workers=3) as ex:
+    with cf.ThreadPoolExecutor(max_workers=2) as ex:
         f_mc = ex.submit(tlc.check, "SignerAuth", "MC_SignerAuth.cfg", coverage=True, workers=4)
         f_neg = ex.submit(tlc.run, "SignerAuth", "Neg_SignerAuth.cfg", workers=1)
-        f_known = ex.submit(tlc.run, "SignerAuth", "Known_SignerAuth.cfg", workers=1)
-        r, rn, rk = f_mc.result(), f_neg.result(), f_known.result()
+        r, rn = f_mc.result(), f_neg.result()
     if r.violated:
         raise core.MachineryError("SignerAuth model violates %s — reproduce on the code before reporting"
                                   % r.violated)
@@ -580,10 +614,6 @@ def run(ctx):
     res.coverage["uncovered_actions"] = never
     if "NeverAuthorized" not in rn.violated:
         raise core.MachineryError("vacuity guard: the model never authorizes")
-    # the model of the code skips blanks between hash bytes as bytes.fromhex does: with that input
-    # class switched on, the strict invariant must fail in the model too (see known_findings)
-    res.coverage["model_with_blank_separated_hash"] = \
-        "violates RefusesMalformed" if "RefusesMalformed" in rk.violated else "holds"
     lap("tlc_model")
     # 2. all behaviours of the model
     behaviours, rg = tlc.generate("GenSignerAuth", "Gen_SignerAuth.cfg")
@@ -669,10 +699,7 @@ def replay(ctx, path):
     if "src" in inp:
         evs, info = sa.execute(inp, ctx.scratch, "replay")
     else:       # an iteration-sweep entry: {hash, n, ...}
-        form = inp["form"]
-        n = inp["n"]
-        it = {"form": "int" if form == "int" else "str", "val": n if form == "int" else 0,
-              "s": "" if form == "int" else (str(n) if form == "dec" else "0x%x" % n)}
+        it = sweep_iter(inp["form"], inp["n"])
         obj, ev = sa.build_api({"kind": "str", "s": inp["hash"]}, it, [inp["sig"]])
         evs, info = [ev], {}
         if obj is not None:
